@@ -91,8 +91,9 @@ def absState (c : CState α) : State α :=
     recalc := c.recalc, iters := c.iters, minDelta := c.minDelta, nTrials := c.nTrials,
     nextId := c.sd.trials.size }
 
-/-- the abstraction asked for in the task: traversal order and queue -/
-def abs (sd : SD.State α (Option α)) : List Nat × List (Option α × Nat) := (SD.traversal sd, sd.gq)
+/-- the abstraction `abs` of the task: traversal order and queue (named `absSD` so as not to shadow
+`abs` = absolute value inside `namespace AGP`) -/
+def absSD (sd : SD.State α (Option α)) : List Nat × List (Option α × Nat) := (SD.traversal sd, sd.gq)
 
 /-- `Method.FirstIteration` for the value `z` of the objective at `image 0.5`:
 the three items are created and their lengths and characteristics computed, then
